@@ -2,3 +2,5 @@ import SmtpV.Props.C09
 #print axioms SmtpV.Props.C09.C09_insecure_unreachable
 #print axioms SmtpV.Props.C09.C09_b64_roundtrip
 #print axioms SmtpV.Props.C09.C09_empty_initial_response
+#print axioms SmtpV.Props.C09.C09_never_on_insecure_connection
+#print axioms SmtpV.Props.C09.C09_at_most_once
